@@ -317,7 +317,27 @@ func runC11() int {
 				cas := map[string]any{"first": p.Leaf.String(), "second": q.Leaf.String()}
 				sig := fmt.Sprintf("pair-write:%s:%s:then-%s", p.List.Name, valueClass(p.Vals), valueClass(q.Vals))
 				o1 := w.Apply(single(IntentSpec{Owner: "A", Prio: 10, Frag: "p"}))
-				o2 := w.Apply(single(IntentSpec{Owner: "B", Prio: 20, Frag: "q"}))
+				var o2 *Outcome
+				if (pj.a+pj.b)%2 == 0 {
+					o2 = w.Apply(single(IntentSpec{Owner: "B", Prio: 20, Frag: "q"}))
+				} else {
+					// the second path as a JSON value at the path of the list entry
+					o2 = &Outcome{}
+					body, _ := json.Marshal(map[string]any{q.List.Leaf: "vq"})
+					ctx := context.Background()
+					ti, err := w.DS.SdcpbTransactionIntentToInternalTI(ctx, &sdcpb.TransactionIntent{Intent: "B", Priority: 20, Update: []*sdcpb.Update{{Path: q.Entry.Sdcpb(), Value: &sdcpb.TypedValue{Value: &sdcpb.TypedValue_JsonVal{JsonVal: body}}}}})
+					if err != nil {
+						o2.ConvErr = err
+					} else {
+						o2.Rsp, o2.Err = w.DS.TransactionSet(ctx, "tq", []*dtypes.TransactionIntent{ti}, nil, 3600e9, false)
+						for _, ir := range o2.Rsp.GetIntents() {
+							if len(ir.GetErrors()) > 0 {
+								o2.HasIntentErrors = true
+							}
+						}
+						_ = w.DS.TransactionConfirm(ctx, "tq")
+					}
+				}
 				if o1.Rejected() || o2.Rejected() {
 					rep.Add(&Violation{Clause: "pair-write-rejected", Sig: "rejected-" + sig, Engine: "E3-inputs", Case: cas,
 						Detail: fmt.Sprintf("storing %s and then %s: first rejected=%v second rejected=%v (err=%v conv=%v intentErrors=%v panic=%q)", p.Leaf, q.Leaf, o1.Rejected(), o2.Rejected(), o2.Err, o2.ConvErr, intentErrors(o2), o2.Panic)})
